@@ -30,4 +30,12 @@ UNITS = [
       timeout=5400, min_obl=100, unwind=34, unwindset=VLOOPS, tier="thorough", mem_gb=16,
       closed_by="full unwinding to the code-enforced constants (32 rings, 128 ring members)",
       note="hash stream contract: every position of the binding hash, every extra_commit length <= 100000"),
+    U("C10.borromean_r2", ["C10", "C07"], "harness/C10/borromean.c", "h_borromean_verify", defs=["MAXRINGS=2"],
+      assumed=["secp256k1_ecmult", "secp256k1_ge_set_gej_var"], functions=["secp256k1_borromean_verify", "secp256k1_borromean_hash", "secp256k1_eckey_pubkey_serialize33"],
+      timeout=900, min_obl=100, unwind=34, unwindset=["secp256k1_borromean_verify.0:5", "secp256k1_borromean_verify.1:3"], bounded="nrings <= 2 (<= 8 ring members)",
+      note="bounded quick stand-in of C10.borromean; ring sizes 1..4"),
+    U("C10.borromean", ["C10", "C07"], "harness/C10/borromean.c", "h_borromean_verify",
+      assumed=["secp256k1_ecmult", "secp256k1_ge_set_gej_var"], functions=["secp256k1_borromean_verify", "secp256k1_borromean_hash", "secp256k1_eckey_pubkey_serialize33"],
+      timeout=5400, min_obl=100, unwind=34, unwindset=["secp256k1_borromean_verify.0:5", "secp256k1_borromean_verify.1:33", "h_borromean_verify.2:129"], tier="thorough", mem_gb=16,
+      closed_by="full unwinding to 32 rings x 4 members (the layouts the range-proof verifier produces)", note="NOT COMPLETED at authoring time (size)"),
 ]
